@@ -59,6 +59,11 @@ fn main() {
         i += 1;
     }
     if let Some(c) = child {
+        // a child must not outlive the lane process that started it (a lane that is left behind by its
+        // wall-clock guard, or killed by the driver's time limit, would otherwise leave spinning orphans)
+        unsafe {
+            libc::prctl(libc::PR_SET_PDEATHSIG, libc::SIGKILL);
+        }
         std::process::exit(vh::lanes::child_main(&c));
     }
     install_panic_hook();
